@@ -81,10 +81,26 @@ def _job(job):
         fn = lambda v: athlib.bulgarian_score(ag, gg, ev, v)
     segs, prev, n = [], None, 0
     hand = form == 'hand'
-    for c in marks:
+
+    def interfere(c, i):
+        # results discarded: the same and the neighbouring marks in the other input forms, another age, the other
+        # gender - the points of a mark are a function of the arguments of that call alone
+        for f2 in ('text', 'num', 'hand', 'hms', 'int', 'short', 'comma'):
+            if f2 != form:
+                for cc in (c, c + 1 - 2 * (i % 2)):
+                    v2 = fmt(cc, f2)
+                    if v2 is not None:
+                        call(fn, v2)
+        if sys_ == 'tyrving':
+            v2 = fmt(c, 'text')
+            for a2, g2 in ((age + 1, g), (age - 1, g), (age, 'F' if g == 'M' else 'M')):
+                call(lambda v_: athlib.tyrving_score(g2, a2, ev, v_), v2)
+    for i, c in enumerate(marks):
         v = fmt(c, form)
         if v is None:
             continue
+        if i % 53 == 26:
+            interfere(c, i // 53)
         r = call(fn, v)
         n += 1
         cur = [r]
